@@ -168,9 +168,48 @@ fn claimed_of(inst: &Instance, pert: Option<(usize, usize, u128)>) -> Vec<Vec<u1
     c
 }
 
+/// honest instances whose assertions are long sequences (>= 64 values: the prover's large-polynomial
+/// boundary evaluator) with every first step / stride shape, under LDE blowups larger than the
+/// constraint-evaluation blowup; also periodic assertions with a non-zero first step.  Shared by
+/// C01 (part of its stream) and C22 (family `c22p`).
+pub fn run_large_assertions(rng: &mut Rng, out: &mut Out, n: usize) {
+    install_panic_hook();
+    for it in 0..n {
+        let (field, hasher) = pick_cfg(rng);
+        let p = modulus(field);
+        let logn = *[7u64, 8, 9, 8].get(it % 4).unwrap();
+        let mut inst = crate::genair::gen_instance_shaped(rng, p, logn, logn, false, false);
+        let nn = inst.n;
+        let tr = build_trace(&inst, p);
+        let col = rng.below(inst.desc.width as u64) as usize;
+        // sequence with at least 64 values: stride in {2, 4, ..} with n / stride >= 64
+        let max_ls = (nn / 64).trailing_zeros() as u64;
+        let stride = 1usize << rng.range(1, max_ls.max(1));
+        let first = match it % 3 { 0 => stride - 1, 1 => 1.min(stride - 1), _ => rng.below(stride as u64) as usize };
+        let count = nn / stride;
+        let steps: Vec<usize> = (0..count).map(|i| first + i * stride).collect();
+        let mut asserts = vec![crate::genair::AssertD { kind: 2, col, first, stride, values: steps.iter().map(|s| tr[col][*s]).collect() }];
+        // plus a single assertion on another cell so that two divisors are in play
+        let (c2, s2) = ((col + 1) % inst.desc.width, if first == 0 { 1 } else { 0 });
+        if !(c2 == col && steps.contains(&s2)) { asserts.push(crate::genair::AssertD { kind: 0, col: c2, first: s2, stride: 0, values: vec![tr[c2][s2]] }); }
+        inst.desc.asserts = asserts;
+        let mut opts = gen_opts(rng, &inst, field, false);
+        // LDE blowup strictly above the constraint-evaluation blowup in two of three cases
+        if it % 3 != 2 { opts.b = (opts.b * *rng.pick(&[2usize, 4, 8])).min(64); }
+        while opts.q >= nn * opts.b { opts.q /= 2; }
+        let claimed = claimed_of(&inst, None);
+        out.count(&format!("large-seq:n{nn}:stride{stride}:first{}:b{}", if first == 0 { "=0" } else { ">0" }, opts.b));
+        out.case(&req("c01", field, hasher, &inst, None, &opts), "ok", || {
+            let o = run_cfg(field, hasher, &inst, &claimed, &opts, None);
+            if o.verdict == "ok" { "ok".into() } else { format!("reject {}", o.detail) }
+        });
+    }
+}
+
 /// C01: honest instances; the oracle is `ok`
 pub fn run_c01(rng: &mut Rng, out: &mut Out, n: usize) {
     install_panic_hook();
+    run_large_assertions(rng, out, (n / 8).max(3));
     for it in 0..n {
         let (field, hasher) = pick_cfg(rng);
         let p = modulus(field);
